@@ -132,3 +132,29 @@ impl Sub<Instant> for Instant {
         self.duration_since(rhs)
     }
 }
+
+// ------------------------------------------------------------------------------------------
+// wall clock (for code that falls back to `SystemTime::now()`)
+// ------------------------------------------------------------------------------------------
+
+/// ns since the Unix epoch that `wall_now()` reports; 0 = not set (then: a fixed date plus the simulated clock)
+static WALL_OVERRIDE_NS: std::sync::atomic::AtomicU64 = std::sync::atomic::AtomicU64::new(0);
+
+/// Set (or, with `None`, unset) the wall clock that `wall_now()` reports.
+pub fn set_wall_override_ns(ns: Option<u64>) {
+    WALL_OVERRIDE_NS.store(ns.unwrap_or(0), std::sync::atomic::Ordering::SeqCst);
+}
+
+/// The wall clock as the simulation defines it: the override if one is set, else 2023-11-14T22:13:20Z plus the
+/// simulated monotonic clock; outside any simulation (and without `set_always_simulated`) the real clock.
+pub fn wall_now() -> std::time::SystemTime {
+    let o = WALL_OVERRIDE_NS.load(std::sync::atomic::Ordering::SeqCst);
+    if o != 0 {
+        return std::time::UNIX_EPOCH + Duration::from_nanos(o);
+    }
+    if sched::in_sim() || ALWAYS_SIM.load(std::sync::atomic::Ordering::SeqCst) {
+        std::time::UNIX_EPOCH + Duration::from_secs(1_700_000_000) + Duration::from_nanos(sched::clock_ns())
+    } else {
+        std::time::SystemTime::now()
+    }
+}
